@@ -223,7 +223,7 @@ Section L.
      lists of maps), single-element insertion or replacement in a list of configurations; validation itself never writes *)
   Definition covered (o : cop) : bool :=
     match o with
-    | CSet _ _ | CAppend _ _ | CSetIdx _ _ _ | CValidate _ => true
+    | CSet _ _ | CAppend _ _ | CSetIdx _ _ _ | CInsert _ _ _ | CValidate _ => true
     | CLoads (Ok _) => false          (* a document that parses is a load_tree: it may fail half way *)
     | CLoads _ => true                (* a document load that fails to parse *)
     | CLoad _ _ | CReset _ => false
@@ -258,6 +258,11 @@ Section L.
       destruct (i <? length l)%nat; inversion H; subst; try reflexivity. congruence.
     - inversion H; subst. reflexivity.
     - destruct parsed; try discriminate; inversion H; subst; reflexivity.
+    - destruct (fget F k fs) as [[f|d1 v1 f1|req vs' fs']|]; try (inversion H; subst; reflexivity).
+      destruct (dget k (c_data c)) as [[v|c0|l]|]; try (inversion H; subst; reflexivity).
+      destruct (make_item w (path_join pre k) (N.of_nat (length l)) vs' fs' x) as [[w1 it] o1] eqn:E.
+      destruct it as [it|]; [|inversion H; subst; reflexivity].
+      destruct o1; try (inversion H; subst; reflexivity). inversion H; subst. congruence.
   Qed.
 
   Theorem reject_unchanged : forall ps o w pre c dyn vs fs w' c' oc1,
@@ -448,6 +453,12 @@ Section L.
       destruct o1; try (inversion H; subst; reflexivity).
       destruct (i <? length l)%nat; destruct c; inversion H; subst; reflexivity.
     - (* CValidate *) inversion H; subst. destruct collect; [reflexivity|]. destruct (Config.validate_errs _ _ _ _ _ _ _); reflexivity.
+    - (* CInsert *) cbn [mark_effect].
+      destruct (fget F k0 fs) as [[f|d1 v1 f1|req vs' fs']|]; try (inversion H; subst; reflexivity).
+      destruct (dget k0 (c_data c)) as [[v|c0|l]|]; try (inversion H; subst; reflexivity).
+      destruct (Config.make_item F lvalidate lto_python ldefault lcallable lflag vrun w (path_join pre k0) (N.of_nat (length l)) vs' fs' x) as [[w1 it] o1].
+      destruct it as [it|]; [|inversion H; subst; destruct r; reflexivity].
+      destruct o1; try (inversion H; subst; reflexivity). destruct c. inversion H; subst. reflexivity.
   Qed.
 
   Fixpoint run_marks (ops : list cop) (w : world) (c : cfg) (vs : list N) (fs : list (str * node F)) : list (cop * oc) * cfg :=
